@@ -51,6 +51,11 @@ def generate(rng, seed, index, tier):
         for i in range(spec["m"]):
             v = spec["cl"][i] if np.isfinite(spec["cl"][i]) else spec["cu"][i]
             spec["cl"][i] = spec["cu"][i] = float(np.round(v, 3))
+        if rng.random() < 0.5:
+            # ... with right-hand side zero (no offset either: the core works on the very array cons() returned)
+            spec["b"] = np.array(spec["b"], float) + spec["cl"]
+            spec["cl"] = np.zeros(spec["m"])
+            spec["cu"] = np.zeros(spec["m"])
     if rng.random() < 0.3:
         spec["m"], spec["A"], spec["B"], spec["b"], spec["cl"], spec["cu"] = 0, np.zeros((0, spec["n"])), np.zeros((0, spec["n"])), np.zeros(0), np.zeros(0), np.zeros(0)
         y0 = np.zeros(0)
